@@ -349,7 +349,7 @@ def check_c13(rep):
     gens = []
     for n in (2, 8, 64, 1024, 4096):
         for bits in ([20], [20, 20, 20], [22, 21, 22, 21], [14, 15, 16], [18] * 6):
-            if all(b > (2 * n).bit_length() for b in bits):
+            if all(b > (2 * n).bit_length() + (3 if len(bits) > 3 else 0) for b in bits):
                 gens.append({"kind": "coeff", "n": n, "bits": bits})
         for bits in ([20], [17, 18, 19], [22]):
             if all(b > (2 * n).bit_length() for b in bits):
@@ -380,6 +380,11 @@ def check_c13(rep):
         return v
     for e in events:
         small = True
+        prod = 1
+        for m in e["moduli"]:
+            prod *= m
+        if prod >= 2 ** 31 or e["t"] >= 2 ** 15:
+            small = False
         for lv in e.get("levels", []):
             for k in ("total", "upper_half_threshold", "plain_inc_wide"):
                 if k in lv:
@@ -399,6 +404,7 @@ def check_c13(rep):
                 lv["upper_inc"] = [lv["q_mod_t"] % m for m in lv["moduli"]]   # not exposed by the API: derived, i.e. not checked
         e.setdefault("rebuild_same", True)
         e.setdefault("serialized_same", True)
+        e.setdefault("order_same", True)
         e.setdefault("id", "none")
     small_events = [e for e in events if e["small"] or not e.get("set")]
     big_events = [e for e in events if not (e["small"] or not e.get("set"))]
@@ -427,6 +433,9 @@ def check_c13(rep):
     rep.cov["rejected"] = sum(1 for e in events if not e.get("set"))
     rep.cov["realistic_contexts_not_decided_by_tlc"] = len(big_events)
     rep.cov["generated_moduli_events"] = len(genev)
+    rep.cov["generated_moduli_refused"] = sum(1 for g in genev if g["panic"])
+    if sum(1 for g in genev if not g["panic"]) < len(genev) // 2:
+        raise ToolError("most modulus-generation requests were refused: the check would be vacuous")
     rep.cov["traces_validated_against_impl"] = len(lines)
     rep.cov["evaluations"] = len(lines)
     rep.cov["distinct_nontrivial"] = len({json.dumps([e["scheme"], e["n"], e["moduli"], e["t"], e["sec"], e["expand"], e["special_enc"]]) for e in trace})
@@ -519,3 +528,35 @@ def check_c16(rep):
 
 
 REGISTRY.update({"C16": (check_c16, "model_checking")})
+
+
+# --------------------------------------------------------------------------------------------------
+# C09 NTT
+# --------------------------------------------------------------------------------------------------
+def check_c09(rep):
+    wd = workdir("C09")
+    raw = hcv(["c09", rep.tier, str(rep.seed)], timeout=1500).splitlines()
+    lines, index = arith.convert_lines(raw)
+    bad, st = arith.validate(lines, wd, timeout=3000, chunks=8)
+    rep.cov["states"] = st["distinct"]
+    rep.cov["transitions"] = st["generated"]
+    rep.cov["traces_validated_against_impl"] = len(lines)
+    rep.cov["evaluations"] = len(index)
+    rep.cov["distinct_nontrivial"] = len({json.dumps(v, sort_keys=True) for v in index.values()})
+    combos = sorted({(v.get("n"), v.get("q")) for v in index.values()})
+    rep.cov["degree_modulus_pairs"] = len(combos)
+    rep.cov["rule"] = ("events = (degree, modulus) pairs: every NTT-friendly prime below 2^14 (first 4 / 12 per degree 2..32/64) validated natively (minimal root, all N unit vectors + dense + "
+                       "extreme vectors forward and inverse, lazy ranges on range maxima and multiples of q, convolution via dyadic products, negacyclic shifts, roots of "
+                       "independently built tables) and moduli of 20..61 bits for N up to 4096 through BigNat power-chain certificates (images of c*X^j for c in {1, q-1, 2q, 2q+1, 4q-1}); "
+                       "distinct = distinct (event kind, degree, modulus, monomial, scalar)")
+    for b in bad:
+        d = index.get(tuple(b), {"op": "?"})
+        rep.violation({"op": d.get("op"), "n": d.get("n"), "bits": int(d["q"]).bit_length() if d.get("q") else None}, {"event": d})
+    ks = sorted(index.keys())
+    rep.samples += [index[ks[0]], index[ks[len(ks) // 2]], index[ks[-1]]]
+    rep.assumptions += ["linearity of the transform is used: for big moduli only images of scaled monomials are checked",
+                        "power-chain quotients are untrusted hints computed in python"]
+    log("[C09] %d events over %d (degree, modulus) pairs, %d rejected" % (len(index), len(combos), len(bad)))
+
+
+REGISTRY.update({"C09": (check_c09, "model_checking")})
